@@ -436,6 +436,21 @@ func genWire(tier string) []proto.Item {
 			}
 		}
 	}
+	// the reply that matters is the one to the LAST probed TTL: the destination is first reached exactly there, or the path
+	// is longer and a router answers it
+	for _, v := range proto.Variants {
+		vi := proto.Info(v)
+		if !vi.Parallel {
+			continue
+		}
+		for _, last := range []int{3, 4} {
+			for _, d := range []int{3000, 95000} {
+				s := proto.Scn{Variant: v, First: 1, Last: last, Dest: 4, IPIDBase: 700, EchoBase: 71, TimeoutMs: 300, DelayMs: 10, Bound: 1}
+				s.Hops = map[int]proto.HopSpec{last: {DelayUs: d}}
+				items = append(items, proto.Item{Scn: s, Class: fmt.Sprintf("wire/%s/r1-%d/reply-to-the-last-probed-ttl", v, last)})
+			}
+		}
+	}
 	// relaxed variants behind a NAT that rewrote the quoted source (address and port) of a router's time-exceeded: the
 	// reply is accepted, early or late, and reflected in the result on every schedule
 	for _, v := range proto.Variants {
